@@ -66,6 +66,22 @@ Fixpoint lincr (len : N) (k : str) (d : list (N * list (str * N))) : list (N * l
 Definition ltally (l : list str) : list (N * list (str * N)) :=
   fold_left (fun d k => lincr (N.of_nat (List.length k)) k d) l [].
 
+(* ---------------------------------------------------------------- first occurrences, collapsing *)
+
+Definition count_str (x : str) (l : list str) : nat := List.length (filter (str_eqb x) l).
+
+(* first occurrences, in order *)
+Fixpoint nodup_first (l : list str) : list str :=
+  match l with
+  | [] => []
+  | x :: r => x :: filter (fun y => negb (str_eqb x y)) (nodup_first r)
+  end.
+
+(* `sort | uniq -c` keeping first-occurrence order, and its expansion back
+   into a sequence (what --prefixcount reads) *)
+Definition collapse (l : list str) : list (str * nat) := map (fun p => (p, count_str p l)) (nodup_first l).
+Definition expand (cl : list (str * nat)) : list str := flat_map (fun pn => repeat (fst pn) (snd pn)) cl.
+
 Section Generic.
   Variable O : numops.
   Definition counter := list (str * num O).
